@@ -296,7 +296,18 @@ func (c *compiler) evalUpdateIndex(left, index, value interface{}) error {
 	rv := reflect.ValueOf(left)
 	switch rv.Kind() {
 	case reflect.Map:
-		rv.SetMapIndex(reflect.ValueOf(index), reflect.ValueOf(value))
+		kv := reflect.ValueOf(index)
+		vv := reflect.ValueOf(value)
+		switch {
+		case rv.IsNil():
+			err = fmt.Errorf("cannot assign to an entry of a nil map (%T)", left)
+		case !kv.IsValid() || !kv.Type().AssignableTo(rv.Type().Key()) || !kv.Type().Comparable():
+			err = fmt.Errorf("cannot use %v (%T) as %s value in map index", index, index, rv.Type().Key())
+		case vv.IsValid() && !vv.Type().AssignableTo(rv.Type().Elem()):
+			err = fmt.Errorf("cannot use '%v' (%T) as %s value in assignment", value, value, rv.Type().Elem())
+		default:
+			rv.SetMapIndex(kv, vv)
+		}
 	case reflect.Array, reflect.Slice:
 		if i, ok := index.(int); ok {
 			if i < 0 || rv.Len()-1 < i {
